@@ -113,7 +113,7 @@ instance (s : Load.State τ) (k : Nat) (w : Wk τ) : Decidable (SyncD s k w) := 
   unfold SyncD; split <;> infer_instance
 
 /-- everything that concerns one worker -/
-structure WkInv (st : LState τ) (k : Nat) (w : Wk τ) : Prop where
+structure WkInv (c : Ctl.State (Load.State τ) τ) (k : Nat) (w : Wk τ) : Prop where
   -- local well-formedness
   loopCb : w.phase = .loop → w.cbSet = true ∧ w.w.pc ≠ .done
   running : w.w.pc = .running → w.sub ≤ 2 ∧ w.w.cur.isSome = true
@@ -125,28 +125,28 @@ structure WkInv (st : LState τ) (k : Nat) (w : Wk τ) : Prop where
   inboxK : ∀ c ∈ w.inbox, loadCmd c = true
   ownP : ∀ ev ∈ w.posted, Own k ev = true
   ownO : ∀ ev ∈ w.outbox.filterMap (evOf k), Own k ev = true
-  notBroken : w.alive = true → (st.ctl.env.flags.get k).broken = false
+  notBroken : w.alive = true → (c.env.flags.get k).broken = false
   -- the controller learns of every death
-  notice1 : k ∈ st.ctl.active → (st.ctl.env.flags.get k).down = false →
+  notice1 : k ∈ c.active → (c.env.flags.get k).down = false →
     (w.alive = true ∧ w.phase ≠ .done) ∨ w.outbox.any isEnd = true
-  notice2 : k ∈ st.ctl.active → (st.ctl.env.flags.get k).down = true → w.posted.any isNotice = true
-  noticeDown : w.posted.any isNotice = true → (st.ctl.env.flags.get k).down = true
-  inactive : k ∉ st.ctl.active → w.posted = []
+  notice2 : k ∈ c.active → (c.env.flags.get k).down = true → w.posted.any isNotice = true
+  noticeDown : w.posted.any isNotice = true → (c.env.flags.get k).down = true
+  inactive : k ∉ c.active → w.posted = []
   -- every shutdown signal reaches the queue of a live worker
-  shut : w.alive = true → (st.ctl.env.flags.get k).sent = true → shutSeen w = true
+  shut : w.alive = true → (c.env.flags.get k).sent = true → shutSeen w = true
   -- registration and collection
-  ready : k ∈ st.ctl.active → st.ctl.env.flags.shuttingDown k = false → w.phase ≠ .boot →
-    (flight k w).any isReady = false → k ∈ AList.keys st.ctl.sched.node2pending
-  readyTail : (st.ctl.env.flags.get k).down = false → (flight k w).tail.any isReady = false
-  readyColl : (st.ctl.env.flags.get k).down = false → (flight k w).any isReady = true → collPending k w = true
-  qn : collPending k w = true ∨ QnD st.ctl.sched st.ctl.env k
-  keysActive : k ∈ AList.keys st.ctl.sched.node2pending → k ∈ st.ctl.active ∨ st.ctl.shouldstop.isSome = true
+  ready : k ∈ c.active → c.env.flags.shuttingDown k = false → w.phase ≠ .boot →
+    (flight k w).any isReady = false → k ∈ AList.keys c.sched.node2pending
+  readyTail : (c.env.flags.get k).down = false → (flight k w).tail.any isReady = false
+  readyColl : (c.env.flags.get k).down = false → (flight k w).any isReady = true → collPending k w = true
+  qn : collPending k w = true ∨ QnD c.sched c.env k
+  keysActive : k ∈ AList.keys c.sched.node2pending → k ∈ c.active ∨ c.shouldstop.isSome = true
   -- books and wire
-  sync : w.alive = true → (st.ctl.env.flags.get k).down = false → SyncD st.ctl.sched k w
+  sync : w.alive = true → (c.env.flags.get k).down = false → SyncD c.sched k w
 
 set_option synthInstance.maxSize 4000 in
 set_option synthInstance.maxHeartbeats 400000 in
-instance instWkInvDec (st : LState τ) (k : Nat) (w : Wk τ) : Decidable (WkInv st k w) :=
+instance instWkInvDec (c : Ctl.State (Load.State τ) τ) (k : Nat) (w : Wk τ) : Decidable (WkInv c k w) :=
   decidable_of_iff
     ((w.phase = .loop → w.cbSet = true ∧ w.w.pc ≠ .done) ∧
      (w.w.pc = .running → w.sub ≤ 2 ∧ w.w.cur.isSome = true) ∧
@@ -157,20 +157,20 @@ instance instWkInvDec (st : LState τ) (k : Nat) (w : Wk τ) : Decidable (WkInv 
      (∀ c ∈ w.inbox, loadCmd c = true) ∧
      (∀ ev ∈ w.posted, Own k ev = true) ∧
      (∀ ev ∈ w.outbox.filterMap (evOf k), Own k ev = true) ∧
-     (w.alive = true → (st.ctl.env.flags.get k).broken = false) ∧
-     (k ∈ st.ctl.active → (st.ctl.env.flags.get k).down = false →
+     (w.alive = true → (c.env.flags.get k).broken = false) ∧
+     (k ∈ c.active → (c.env.flags.get k).down = false →
         (w.alive = true ∧ w.phase ≠ .done) ∨ w.outbox.any isEnd = true) ∧
-     (k ∈ st.ctl.active → (st.ctl.env.flags.get k).down = true → w.posted.any isNotice = true) ∧
-     (w.posted.any isNotice = true → (st.ctl.env.flags.get k).down = true) ∧
-     (k ∉ st.ctl.active → w.posted.isEmpty = true) ∧
-     (w.alive = true → (st.ctl.env.flags.get k).sent = true → shutSeen w = true) ∧
-     (k ∈ st.ctl.active → st.ctl.env.flags.shuttingDown k = false → w.phase ≠ .boot →
-        (flight k w).any isReady = false → k ∈ AList.keys st.ctl.sched.node2pending) ∧
-     ((st.ctl.env.flags.get k).down = false → (flight k w).tail.any isReady = false) ∧
-     ((st.ctl.env.flags.get k).down = false → (flight k w).any isReady = true → collPending k w = true) ∧
-     (collPending k w = true ∨ QnD st.ctl.sched st.ctl.env k) ∧
-     (k ∈ AList.keys st.ctl.sched.node2pending → k ∈ st.ctl.active ∨ st.ctl.shouldstop.isSome = true) ∧
-     (w.alive = true → (st.ctl.env.flags.get k).down = false → SyncD st.ctl.sched k w))
+     (k ∈ c.active → (c.env.flags.get k).down = true → w.posted.any isNotice = true) ∧
+     (w.posted.any isNotice = true → (c.env.flags.get k).down = true) ∧
+     (k ∉ c.active → w.posted.isEmpty = true) ∧
+     (w.alive = true → (c.env.flags.get k).sent = true → shutSeen w = true) ∧
+     (k ∈ c.active → c.env.flags.shuttingDown k = false → w.phase ≠ .boot →
+        (flight k w).any isReady = false → k ∈ AList.keys c.sched.node2pending) ∧
+     ((c.env.flags.get k).down = false → (flight k w).tail.any isReady = false) ∧
+     ((c.env.flags.get k).down = false → (flight k w).any isReady = true → collPending k w = true) ∧
+     (collPending k w = true ∨ QnD c.sched c.env k) ∧
+     (k ∈ AList.keys c.sched.node2pending → k ∈ c.active ∨ c.shouldstop.isSome = true) ∧
+     (w.alive = true → (c.env.flags.get k).down = false → SyncD c.sched k w))
     (by
       constructor
       · rintro ⟨h1, h2, h3, h4, h5, h6, h7, h8, h9, h10, h11, h12, h13, h14, h15, h16, h17, h18, h19, h20, h21⟩
@@ -231,11 +231,11 @@ instance (st : LState τ) : Decidable (CtlInv st) :=
         · intro hh; exact h.compl (by cases hc : st.ctl.sched.collection <;> simp_all))
 
 /-- **the system invariant** -/
-def Inv (st : LState τ) : Prop := CtlInv st ∧ ∀ p ∈ st.wk.zipIdx, WkInv st p.2 p.1
+def Inv (st : LState τ) : Prop := CtlInv st ∧ ∀ p ∈ st.wk.zipIdx, WkInv st.ctl p.2 p.1
 
 instance (st : LState τ) : Decidable (Inv st) := by unfold Inv; infer_instance
 
-theorem Inv.wk {st : LState τ} (h : Inv st) {k : Nat} {w : Wk τ} (hw : st.wk[k]? = some w) : WkInv st k w := by
+theorem Inv.wk {st : LState τ} (h : Inv st) {k : Nat} {w : Wk τ} (hw : st.wk[k]? = some w) : WkInv st.ctl k w := by
   have := h.2 (w, k) (by
     rw [List.mem_zipIdx_iff_getElem?]
     simpa using hw)
